@@ -148,7 +148,7 @@ func (c *Ctx) ruleActiveDestinations() {
 	r := c.R
 	a := c.lockAnalysis()
 	rule := "E1b.active-destination"
-	r.Rule(rule, "escape confinement: a *destination taken out of a shard map (an active destination) is used only while that shard lock is held, and is never returned (except by requires-lock helpers), stored outside the shard/MAC index, or sent elsewhere; readers get snapshots", 15)
+	r.Rule(rule, "escape confinement: a *destination taken out of a shard map (an active destination) is used only while that shard lock is held, and is never returned (except by requires-lock helpers), stored outside the shard/MAC index, or sent elsewhere; readers get snapshots", 11)
 	dn := c.P.NamedType("internal/pkg/table", "destination")
 	pathT := c.P.NamedType("internal/pkg/table", "Path")
 	if dn == nil || pathT == nil {
